@@ -97,8 +97,11 @@ def crc(data, name, width, poly, init, xorout):
         term = z3.IntVal(val)
         result = val
     elif EXACT[0] and all(k == 'b' for (k, _v) in toks):
+        # bit-precise: a fresh bit-vector defined (in the path condition, unsimplified) as the CRC of the octets
         bv = crc_bv([v for (_k, v) in toks], width, poly, init, xorout)
-        return mk_int(z3.BV2Int(bv))
+        var = z3.BitVec(c.fresh('crcbv_%s' % name.replace('-', '')), width)
+        c._assume(var == bv)
+        return SInt(z3.BV2Int(var))
     else:
         k = (name, _key(data))
         if k in cache:
